@@ -13,7 +13,28 @@ from harness.core import coq_str, coq_list
 from harness.gen import ftree as T
 from harness.impl import tree as I
 from harness.impl import fordrun as F
-from harness.props.c01 import case_term, IMPORTS, CASE_T
+from harness.props.c01 import case_term, IMPORTS, CASE_T, impl_term
+
+IMPORTS20 = "From Ford Require Import Base.Str Sem.Tree Corr.C01 Corr.C20."
+CASE_T20 = "str * list stmt * (ent + nat) * bool"
+STRAY_ENDS = ["end", "END", "end module nosuch", "end subroutine s", "end program", "endfunction", "end  module",
+              "end type", "end interface"]
+
+
+def reject_term(fname, events, res, must_reject):
+    stmts = coq_list(t for t, _ in events if t is not None)
+    return f"({coq_str(fname)}, {stmts}, {impl_term(res)}, {core.coq_bool(must_reject)})"
+
+
+def render_with_marks(cx, fnode):
+    """events of a file plus the event indices at which no program unit is open"""
+    out = T.Out()
+    out.cx = cx
+    marks = [0]
+    for u in fnode["children"]:
+        T.render_container(cx, out, u)
+        marks.append(len(out.events))
+    return out.events, marks
 
 THEOREMS = ["C20_truncation_rejected", "C20_stray_end_rejected", "C20_isolation", "C20_parse_total"]
 GARBAGE = ["this is not fortran at all", "end", "contains", "end module nothing", "module", "program a\nprogram b",
@@ -68,6 +89,21 @@ def bad_variants(rng, valid):
     return out
 
 
+def stray_end_variants(rng, n):
+    """valid files with one END statement added where no unit is open (before, between or after the units)"""
+    out = []
+    for i in range(n):
+        cx = T.Ctx(rng, docs=True, spell=rng.random() < 0.5)
+        f = T.gen_file(cx, "s.f90", [], allow_program=True)
+        ev, marks = render_with_marks(cx, f)
+        m = rng.choice(marks)
+        word = rng.choice(STRAY_ENDS)
+        kind = "EndBlock" if False else "EndPlain"
+        ev2 = ev[:m] + [(f"SEnd {kind}", word)] + ev[m:]
+        out.append(("stray-end", "\n".join(t for _, t in ev2 if t is not None) + "\n", ev2))
+    return out
+
+
 def project_snapshot(root, order, names):
     """parse + correlate a project with a forced file enumeration order; canonical per-file trees and idents"""
     import ford.fortran_project as fp
@@ -95,7 +131,7 @@ def project_snapshot(root, order, names):
 
 
 def run(chk):
-    chk.build(["theories/Corr/C01.vo", "theories/Props/C20.vo"])
+    chk.build(["theories/Corr/C01.vo", "theories/Corr/C20.vo", "theories/Props/C20.vo"])
     chk.props("theories/Props/C20.v", THEOREMS)
     rng = chk.rng
     quick = chk.tier == "quick"
@@ -103,9 +139,13 @@ def run(chk):
     try:
         # A. the structural parser on truncated statement sequences: model = impl (rejected or tree)
         cases, terms = [], []
+        variants = []
         for i in range(150 if quick else 3000):
             valid = gen_valid_files(rng, 1)[0]
-            for kind, text, ev in bad_variants(rng, valid):
+            variants += bad_variants(rng, valid)
+        variants += stray_end_variants(rng, 60 if quick else 1200)
+        if True:
+            for kind, text, ev in variants:
                 if ev is None or not core.is_ascii(text):
                     continue
                 t0 = time.time()
@@ -116,17 +156,24 @@ def run(chk):
                     chk.violation("failing-input", {"what": "FORD did not terminate within 30 s on a truncated file",
                                                     "text": text}, True)
                     continue
-                cases.append((text, ev, res))
-                terms.append(case_term("b.f90", ev, res, None))
-                chk.count(("trunc", text), sample={"text": text[-300:], "impl": res[0]} if len(cases) < 3 else None)
-        out = chk.coq_judge(IMPORTS, CASE_T, "judge", terms, shard=40)
+                # a stray END is invalid by construction; a cut may fall on a unit boundary (then the file is valid)
+                must = kind == "stray-end"
+                cases.append((text, ev, res, kind))
+                terms.append(reject_term("b.f90", ev, res, must))
+                chk.count((kind, text), sample={"kind": kind, "text": text[-300:], "impl": res[0]} if len(cases) < 3 else None)
+        out = chk.coq_judge(IMPORTS20, CASE_T20, "judge_reject", terms, shard=40)
         if out is not None:
             chk.traces += len(cases)
             for idx, code in sorted(out.items()):
-                text, ev, res = cases[idx]
-                chk.violation("broken-correspondence", {"what": "truncated file: model and FORD disagree on "
-                              "rejection / tree", "impl": res[0], "impl_detail": res[1] if res[0] != "ok" else None,
-                              "text": text}, False)
+                text, ev, res, kind = cases[idx]
+                if code & 2:
+                    chk.violation("failing-input", {"what": "a file with an END statement where no program unit is "
+                                  "open was accepted instead of being rejected", "kind": kind, "impl": res[0],
+                                  "text": text}, True)
+                else:
+                    chk.violation("broken-correspondence", {"what": "invalid file: model and FORD disagree on "
+                                  "rejection / tree", "kind": kind, "impl": res[0],
+                                  "impl_detail": res[1] if res[0] != "ok" else None, "text": text}, False)
         # B. isolation: the other files' trees and identifiers with and without the bad file, every position
         nproj = 40 if quick else 400
         for pi in range(nproj):
